@@ -1,6 +1,8 @@
 """C09 -- existing outputs are never overwritten and _SUCCESS marks only complete saves.
 
-case = (saver, max_retries, parts, pre, wfaults, cfaults, ext, persist)
+case = (saver, max_retries, parts, pre, wfaults, cfaults, ext, persist, name)
+  name     the target's own name below the scratch directory, possibly with one parent component ('out', '_staging',
+           'runs/_latest', ...); the codec extension is appended to it
   persist  (mode, k): mode 0 the saved data set is not persisted; 1 it is persisted (cache()) and take(k) ran on it
            beforehand (k = 0: nothing materialised yet); 2 the data is persisted BELOW the failing function
   ext      codec extension appended to the target's name: '' | '.gz' | '.bz2' | '.xz' | '.lzma' | '.zip' | '.tar' |
@@ -94,21 +96,22 @@ def _content(saver, part):
 
 
 def kind(case):
-    saver, m, parts, pre, wf, cf, ext, persist = case
+    saver, m, parts, pre, wf, cf, ext, persist, name = case
     s = ('text' if saver % 2 == TEXT else 'pickle') + ('-url' if saver >= 2 else '')
     p = ['absent', 'file', 'dir'][pre[0]]
     f = ('w' if wf else '') + ('c' if cf else '') or 'nofault'
-    return f'{s}{"+codec" if ext else ""}{"+persisted" if persist[0] else ""}/{p}/{f}'
+    return f'{s}{"+codec" if ext else ""}{"+persisted" if persist[0] else ""}{"+name" if name != "out" else ""}/{p}/{f}'
 
 
 def impl(case):
-    saver, m, parts, pre, wfaults, cfaults, ext, persist = case
+    saver, m, parts, pre, wfaults, cfaults, ext, persist, name = case
     pmode, pk = persist
     pre = tuple(pre)
     n = len(parts)
     d = os.path.join(_BASE, str(next(_counter)))
     os.makedirs(d)
-    target = os.path.join(d, 'out' + ext)
+    target = os.path.join(d, name + ext)
+    os.makedirs(os.path.dirname(target), exist_ok=True)
     url = ('file://' if saver >= 2 else '') + target
     try:
         faultfs.materialise(target, pre, ext)
@@ -147,7 +150,7 @@ def impl(case):
             follow = None if r == [0, 1, 2] else Err('WrongResult')
         except Exception as e:  # pylint: disable=broad-except
             follow = Err(type(e).__name__)
-        read = per_part = None
+        read = per_part = read_glob = resave = None
         names = sorted(os.listdir(target), key=lambda x: x.encode()) if os.path.isdir(target) else []
         if outcome is None or (pre == ABSENT and _has_marker(final)):
             c2 = Context()
@@ -161,7 +164,18 @@ def impl(case):
             if os.path.isdir(target):
                 # every part file on its own, in name order
                 per_part = [rd(url + '/' + f) for f in names if f.startswith('part')]
-        return (outcome, final, hist, ff.calls, locked, follow, read, names, per_part)
+                read_glob = rd(url + '/part-*')
+        if outcome is None:
+            # a second save of the same data to the same path, no faults, fresh context
+            c3 = Context()
+            again = c3.parallelize(range(n), n).mapPartitionsWithIndex(faultfs.PartitionData(data))
+            try:
+                (again.saveAsTextFile if saver % 2 == TEXT else again.saveAsPickleFile)(url)
+                r3 = None
+            except Exception as e:  # pylint: disable=broad-except
+                r3 = Err(type(e).__name__)
+            resave = (r3, faultfs.snapshot(target, ext) == final)
+        return (outcome, final, hist, ff.calls, locked, follow, read, names, per_part, read_glob, resave)
     finally:
         shutil.rmtree(d, ignore_errors=True)
 
@@ -201,13 +215,13 @@ def _complete(saver, parts, snap):
 
 def oracle(case, result):
     """The statement of C09 evaluated on what the implementation did (no reference to the Coq model)."""
-    saver, m, parts, pre, wfaults, cfaults, ext, persist = case
+    saver, m, parts, pre, wfaults, cfaults, ext, persist, name = case
     pre = tuple(pre)
     n = len(parts)
     site = 'saveAsTextFile' if saver % 2 == TEXT else 'saveAsPickleFile'
     if isinstance(result, Err):
         return (f'{site}:harness', f'could not observe: {result}')
-    outcome, final, hist, calls, locked, follow, read, names, per_part = result
+    outcome, final, hist, calls, locked, follow, read, names, per_part, read_glob, resave = result
     flat = [x for p in parts for x in _elements(saver, p)]
     # the context remains usable, whatever happened
     if locked or follow is not None:
@@ -280,10 +294,15 @@ def oracle(case, result):
             swallowed = first <= n and all(first + t in ks for t in range(width))
         if swallowed:
             return (f'{site}:write-failure-swallowed', f'write faults {wfaults!r} (max_retries {m}), save returned normally')
+    # 5b. what a successful save wrote is not overwritten by a second save to the same path
+    if resave is not None and resave != (Err('FileAlreadyExistsException'), True):
+        return (f'{site}:second-save-not-refused', f'second save to {name!r}: outcome {resave[0]!r}, target unchanged: {resave[1]}')
     # 6. reading a directory that carries the marker returns every partition's data in partition order
     if _has_marker(final) or outcome is None:
         if read != flat:
             return (f'{site}:read-back', f'read {read!r}, saved {flat!r}')
+        if read_glob is not None and read_glob != flat:
+            return (f'{site}:read-back-through-part-pattern', f'{name!r}/part-* read {read_glob!r}, saved {flat!r}')
         if per_part is not None and per_part != [_elements(saver, p) for p in parts]:
             return (f'{site}:read-back-per-part-file', f'part files read {per_part!r}, saved {[_elements(saver, p) for p in parts]!r}')
     return None
@@ -300,7 +319,7 @@ def _norm(snap):
 
 def nontrivial(case, result):
     return bool(case[4]) or bool(case[5]) or tuple(case[3]) != ABSENT or bool(case[6]) or bool(case[7][0]) \
-        or max((len(_elements(case[0], p)) for p in case[2]), default=0) > 3
+        or max((len(_elements(case[0], p)) for p in case[2]), default=0) > 3 or case[8] != 'out'
 
 
 # ---------------------------------------------------------------- generation
@@ -349,6 +368,31 @@ def _c(i, a, cls=INJECTED, lazy=None, pos=1):
 
 
 NOPERSIST = (0, 0)
+# names of the target: hidden-looking ('_x', '.x'), names of the save's own files, shell/URL-special characters,
+# unicode, dots, long names, one parent component of the same kinds.  Not included, because the reader's path syntax
+# gives them a meaning: ',' (separates expressions), '*' '?' '[' (patterns), a name ENDING in white space without an
+# extension (File.resolve_filenames strips each expression) -- see design.d/C09.md
+NAMES = ['_staging', '.snapshot', 'runs/_latest', '_SUCCESS_dir', '_SUCCESS', 'part-x', 'part-00000', 'with space', ' lead',
+         'a#b', '100%', '%41', 'a+b=c', 'na\u00efve-\u00fc', '\u65e5\u672c', 'dot.', 'two..dots', '.hidden/inner', '_tmp/.x', 'x' * 200,
+         '-dash', '~tilde', "quote'", 'dq"', 'semi;colon', 'amp&', '(paren)', '@at', '!bang', '$dollar', '{brace}', 'a:b',
+         'file:x', 'tab\tx', 'back\\slash', 'a.b.c', '_/_', '.a/.b']
+
+
+def _name_sweep(rng, quick):
+    """The target's own name: complete saves (multi-partition directory and single file), both savers, plain and
+    codec targets; one failing and one refused save per name."""
+    cases = []
+    for name in NAMES:
+        for saver in (TEXT, PICKLE):
+            for n in (1, 3):
+                parts = [_sized_part(saver, rng.choice([0, 1, 2, 3]), t + 1, tail_blank=rng.choice([0, 1])) for t in range(n)]
+                exts = ['', rng.choice(EXTS)] if (not quick or rng.random() < 0.5) else ['']
+                for ext in exts:
+                    cases.append((saver, 1, parts, ABSENT, [], [], ext, rng.choice([NOPERSIST, NOPERSIST, (1, 1)]), name))
+            parts = [_sized_part(saver, 2, t + 1) for t in range(2)]
+            cases.append((saver, 1, parts, ABSENT, [_w(rng.choice([0, 1, 2]), BEFORE, 0)], [], '', NOPERSIST, name))
+            cases.append((saver, 1, parts, rng.choice(_pre_states(rng, saver)), [], [], '', NOPERSIST, name))
+    return cases
 SIZES = [0, 1, 9, 10, 11, 20, 21, 25, 103]   # around the pickle writer's batchSize=10 and its multiples
 
 
@@ -419,10 +463,11 @@ def generate(rng, tier):
     for path in sorted(glob.glob(os.path.join(root, 'corpus', 'C09', '*.json'))):
         with open(path) as f:
             cases.append(uncanon(json.load(f)['case']))
-    cases += [c + ('', NOPERSIST) for c in _plain_sweep(rng, quick)]
-    cases += [c + (NOPERSIST,) for c in _codec_sweep(rng, quick)]
-    cases += _size_sweep(rng, quick)
-    cases += _persist_sweep(rng, quick)
+    cases += [c + ('', NOPERSIST, 'out') for c in _plain_sweep(rng, quick)]
+    cases += [c + (NOPERSIST, 'out') for c in _codec_sweep(rng, quick)]
+    cases += [c + ('out',) for c in _size_sweep(rng, quick)]
+    cases += [c + ('out',) for c in _persist_sweep(rng, quick)]
+    cases += _name_sweep(rng, quick)
     # random plans
     for _ in range(700 if quick else 8000):
         saver = rng.choice((TEXT, PICKLE)) + rng.choice((0, 0, 2))
@@ -449,7 +494,7 @@ def generate(rng, tier):
             elif r < 0.35:
                 cf += [_c(i, a, rng.choice(classes), rng.random() < 0.5, rng.choice([0, 1, 2, 9])) for a in range(1, m + 1) if rng.random() < 0.5]
         persist = rng.choice([(0, 0), (0, 0), (1, 0), (1, rng.randint(1, 6)), (2, rng.randint(0, 3))])
-        cases.append((saver, m, parts, pre, wf, cf, ext, persist))
+        cases.append((saver, m, parts, pre, wf, cf, ext, persist, rng.choice(NAMES) if rng.random() < 0.2 else 'out'))
     return cases
 
 
@@ -577,15 +622,21 @@ def extra_evidence():
 
 
 def shrink_candidates(case):
-    saver, m, parts, pre, wf, cf, ext, persist = case
+    saver, m, parts, pre, wf, cf, ext, persist, name = case
     for c in _shrink6((saver, m, parts, pre, wf, cf)):
-        yield c + (ext, persist)
+        yield c + (ext, persist, name)
     if ext and not any(w[1] == TORN for w in wf):
-        yield (saver, m, parts, pre, wf, cf, '', persist)
+        yield (saver, m, parts, pre, wf, cf, '', persist, name)
     if persist[0]:
-        yield (saver, m, parts, pre, wf, cf, ext, NOPERSIST)
+        yield (saver, m, parts, pre, wf, cf, ext, NOPERSIST, name)
         if persist[1]:
-            yield (saver, m, parts, pre, wf, cf, ext, (persist[0], 0))
+            yield (saver, m, parts, pre, wf, cf, ext, (persist[0], 0), name)
+    if name != 'out':
+        yield (saver, m, parts, pre, wf, cf, ext, persist, 'out')
+        if '/' in name:
+            yield (saver, m, parts, pre, wf, cf, ext, persist, name.split('/')[-1])
+        if len(name) > 2:
+            yield (saver, m, parts, pre, wf, cf, ext, persist, name[:2])
 
 
 def _shrink6(case):
